@@ -79,22 +79,13 @@ def _fails_pred(cls):
 
 
 def run(ctx: Ctx) -> Outcome:
-    n = ctx.n(500, 6000)
+    n = ctx.n(1500, 8000)
     out, results = engcheck.run_programs(ctx, n, dict(GEN, n_stmts=ctx.n(9, 16)), "oracle", nontrivial)
     out.rule = ("random DAG programs over add/sub/mul/neg/pos/square/sum/getitem/take/reshape/transposes/expand/squeeze/"
                 "broadcast_to with constant and non-constant leaves, ndarray and Python-scalar operands, broadcasting, "
                 "repeated operands, one final backward (seed None/array/broadcastable array); non-trivial = >=3 ops and a "
                 "tensor with fan-out >=2; distinct by program hash")
-    seen = set()
-    for r in results:
-        for cls, msg in r["fails"]:
-            if cls in seen:
-                continue
-            seen.add(cls)
-            small = engcheck.shrink(r["prog"], _fails_pred(cls)) if cls != "ORACLE-CRASH" else r["prog"]
-            sig = f"C01|{cls}|{engcheck.prog_signature(small)}"
-            msgs = [m for c, m in oracle(small, 0) if c == cls] or [msg]
-            out.violations.append(Violation(sig, f"{cls}: {msgs[0]}", {"program": small, "class": cls}))
+    seen = engcheck.report(out, results, "C01", oracle)
     out.assumptions = ["exact-integer fragment (float64 holding small integers); float rounding order is not claimed",
                        "each op's VJP being the transpose of its derivative is C02"]
     return out
